@@ -474,6 +474,12 @@ func serviceHistory(run *hx.Run, r *hx.RNG) {
 				uid, vsn := "", ""
 				if known != nil {
 					uid, vsn = known.Id.Uid, known.Version
+					if tr.Chance(8) {
+						uid = nearUid(tr, uid) // e.g. the lower-cased ULID
+						if uid == "" || !isValidUTF8NoCtl(uid) {
+							uid = strings.ToLower(known.Id.Uid)
+						}
+					}
 				}
 				switch n := tr.Intn(100); {
 				case n < 22: // user write: by name, non-CAS
@@ -506,6 +512,15 @@ func serviceHistory(run *hx.Run, r *hx.RNG) {
 		return
 	}
 	e.finish("service history")
+}
+
+func isValidUTF8NoCtl(s string) bool {
+	for _, c := range s {
+		if c < 0x20 || c == 0xFFFD {
+			return false
+		}
+	}
+	return true
 }
 
 func servicePart(run *hx.Run) {
